@@ -421,15 +421,21 @@ class Image:
             self.date.append(image.date)
 
         # Relative time - combine internal stored times
-        if self._is_none(self.time) or self._is_none(image.time) or offset is None:
+        dates_available = not (self._is_none(self.date) or self._is_none(image.date))
+        if self._is_none(self.time) or self._is_none(image.time):
+            time = None
+        elif offset is None and dates_available:
+            # Relative times are retrieved from the absolute dates (see set_time)
             time = None
         else:
-            # Append relative times, plus offset
+            # Append relative times, plus offset (no offset if none is provided, such
+            # that images merely carrying relative times keep them)
+            shift = 0 if offset is None else offset
             time = self.time if isinstance(self.time, list) else [self.time]
             if isinstance(image.time, list):
-                time = time + [t + offset for t in image.time]
+                time = time + [t + shift for t in image.time]
             else:
-                time.append(image.time + offset)
+                time.append(image.time + shift)
 
         # Specs
         self.time_dim = 1
